@@ -166,6 +166,17 @@ func init() {
 	opTable["ptnrender"] = func(s *Session, a []string) string {
 		return hexEnc([]byte(decPTN(a).Render()))
 	}
+	opTable["ptnrt"] = func(s *Session, a []string) string {
+		p := decPTN(a)
+		back, err := ptn.ParsePTN(bytes.NewReader([]byte(p.Render())))
+		if err != nil {
+			return "err"
+		}
+		if samePTN(p, back) {
+			return "same"
+		}
+		return "differs"
+	}
 	opTable["ptnaddmoves"] = func(s *Session, a []string) string {
 		var ms []tak.Move
 		for _, t := range a {
